@@ -24,3 +24,29 @@ Theorem C15_graded_mesh : forall prec xb xe db de n v, 0 < prec ->
   geo_model prec rfu_sum xb xe db de n = Some v -> graded_mesh xb xe n v.
 Proof. exact model_mesh_sum. Qed.
 Print Assumptions C15_graded_mesh.
+
+(* both orientations: the mesh is strictly increasing when xb < xe and strictly decreasing when xe < xb (the first element has
+   the sign of xe - xb), and every node lies between the two ends (no node moves away from xe) *)
+Theorem C15_mesh_oriented : forall prec xb xe db de n v, 0 < prec ->
+  geo_model prec rfu_sum xb xe db de n = Some v -> oriented xb xe v /\ between_ends xb xe v.
+Proof. exact model_mesh_oriented. Qed.
+Print Assumptions C15_mesh_oriented.
+
+(* one iteration of each loop of the code, with the loop state explicit: the fold of the model applies `node_step` at every
+   position; running the node loop one more time appends the node obtained by `node_step` from the state (re, s) reached
+   after k iterations and leaves the first k nodes unchanged; same for the geometric-sum loop of the near-uniform branch,
+   whose result is the sum the model uses *)
+Theorem C15_node_loop_applies_step : forall k xb f r re s,
+  loop (S k) xb f r re s = fst (node_step xb f r (re, s)) :: loop k xb f r (fst (snd (node_step xb f r (re, s)))) (snd (snd (node_step xb f r (re, s)))).
+Proof. exact loop_applies_node_step. Qed.
+Print Assumptions C15_node_loop_applies_step.
+Theorem C15_node_loop_extends_by_one_step : forall k xb f r re s,
+  loop (S k) xb f r re s = loop k xb f r re s ++ [fst (node_step xb f r (node_state f r k re s))].
+Proof. exact loop_extends_by_one_step. Qed.
+Print Assumptions C15_node_loop_extends_by_one_step.
+Theorem C15_sum_loop_extends_by_one_step : forall k r st, sum_loop (S k) r st = sum_step r (sum_loop k r st).
+Proof. exact sum_loop_extends_by_one_step. Qed.
+Print Assumptions C15_sum_loop_extends_by_one_step.
+Theorem C15_sum_loop_is_geometric_sum : forall n r, fst (sum_loop n r (0, 1)) = gsum r n /\ rfu_sum r n = 1 / fst (sum_loop n r (0, 1)).
+Proof. exact sum_loop_rfu. Qed.
+Print Assumptions C15_sum_loop_is_geometric_sum.
